@@ -465,10 +465,14 @@ func runAll(seed uint64, tier, outDir string, workers int, keep, doShrink bool) 
 	pcls := map[string]int{}
 	icls := map[string]int{}
 	validAll, validOK, validParse, excluded := 0, 0, 0, 0
+	parsedOf := map[string]int{} // per stream: inputs dbc.Parse accepts (the importer-level streams are meant to be parseable)
 	best := map[string]*failure{}
 	for i, r := range results {
 		in := ins[i]
 		hist[in.stream]++
+		if r.parse.class == clsOK {
+			parsedOf[in.stream]++
+		}
 		pcls[r.parse.class]++
 		icls[r.imp.class]++
 		if r.imp.class == clsExcluded {
@@ -555,6 +559,9 @@ func runAll(seed uint64, tier, outDir string, workers int, keep, doShrink bool) 
 	}
 	for _, k := range sortedKeys(icls) {
 		fmt.Fprintf(w, "class import %s %d\n", k, icls[k])
+	}
+	for _, k := range sortedKeys(hist) {
+		fmt.Fprintf(w, "parsedof %s %d\n", k, parsedOf[k])
 	}
 	fmt.Fprintf(w, "accepted_valid %d/%d\n", validOK, validAll)
 	fmt.Fprintf(w, "parsed_valid %d/%d\n", validParse, validAll)
